@@ -28,7 +28,8 @@ class Untranslatable(Exception):
 
 
 LEAN_TY = {"int": "Nat", "bool": "Bool", "bls": "Bls.Op", "ty": "TypeI", "tylist": "List TypeI", "blslist": "List Bls.Op",
-           "intlist": "List Nat", "offsets": "List Bls.Op", "iter": "(Bls.Op → Py.M (List Bls.Op))", "sint": "Int", "range": "Int × Int"}
+           "intlist": "List Nat", "offsets": "List Bls.Op", "iter": "(Bls.Op → Py.M (List Bls.Op))", "sint": "Int", "range": "Int × Int", "str": "String", "optint": "Option Nat", "comp": "CompI", "sec": "SecI",
+           "complist": "List CompI", "unit": "Unit", "strlist": "List String", "pairfn": "(SecI → SecI → Py.M Unit)"}
 
 PREAMBLE = [
     "/-- A serializable type as the layout code sees it. -/",
@@ -115,6 +116,43 @@ ITEMS += [
      "params": [("bit_length", "int")], "ret": "range", "paths": {"self.bit_length": ("bit_length", "int")}},
 ]
 
+NAMESPACE = "pydsdl/_namespace.py"
+NS_PREAMBLE = [
+    "/-- One section of a composite (the request or response structure of a service, or a message type itself) as the",
+    "    cross-definition checks of `_namespace.py` see it. -/",
+    "structure SecI where",
+    "  full_name : String",
+    "  major : Nat",
+    "  minor : Nat",
+    "  has_fixed_port_id : Bool",
+    "  fixed_port_id : Option Nat",
+    "  extent : Nat",
+    "  is_delimited : Bool",
+    "/-- A composite type as the cross-definition checks see it (`is_service` = `isinstance(x, ServiceType)`). -/",
+    "structure CompI where",
+    "  full_name : String",
+    "  major : Nat",
+    "  minor : Nat",
+    "  is_service : Bool",
+    "  has_fixed_port_id : Bool",
+    "  fixed_port_id : Option Nat",
+    "  extent : Nat",
+    "  is_delimited : Bool",
+    "  request_type : SecI",
+    "  response_type : SecI",
+    "",
+]
+NS_ITEMS: typing.List[dict] = [
+    {"name": "Namespace.pairwise_section", "source": NAMESPACE, "cls": None, "fn": "_ensure_minor_version_compatibility_pairwise", "kind": "method",
+     "params": [("recur", "pairfn"), ("a", "sec"), ("b", "sec")], "ret": "unit", "paths": {},
+     "calls": {"_ensure_minor_version_compatibility_pairwise": ("recur", "unit")}},
+    {"name": "Namespace.pairwise", "source": NAMESPACE, "cls": None, "fn": "_ensure_minor_version_compatibility_pairwise", "kind": "method",
+     "params": [("recur", "pairfn"), ("a", "comp"), ("b", "comp")], "ret": "unit", "paths": {},
+     "calls": {"_ensure_minor_version_compatibility_pairwise": ("recur", "unit")}},
+    {"name": "Namespace.ensure_no_fixed_port_id_collisions", "source": NAMESPACE, "cls": None, "fn": "_ensure_no_fixed_port_id_collisions", "kind": "method",
+     "params": [("types", "complist")], "ret": "unit", "paths": {}},
+]
+
 # class constants the tables above assume; checked against the source on every run
 CONSTANTS = [
     ("pydsdl/_serializable/_serializable.py", "SerializableType", "BITS_PER_BYTE", 8),
@@ -171,6 +209,8 @@ class Tr:
                 return ("true" if n.value else "false"), "bool"
             if isinstance(n.value, int) and n.value >= 0:
                 return "(%d : Nat)" % n.value, "int"
+            if isinstance(n.value, str):
+                return '"' + n.value.replace("\\", "\\\\").replace('"', '\\"') + '"', "str"
             raise Untranslatable("constant %r" % (n.value,))
         if isinstance(n, ast.Name):
             raise Untranslatable("unknown name %s" % n.id)
@@ -182,6 +222,16 @@ class Tr:
                 return "(%s).%s" % (base, n.attr), "int"
             if bt == "ty" and n.attr == "bit_length_set":
                 return "(%s).bit_length_set" % base, "bls"
+            if bt in ("comp", "sec"):
+                if n.attr == "version":
+                    return base, "ver:" + bt
+                tbl = {"full_name": "str", "has_fixed_port_id": "bool", "fixed_port_id": "optint", "extent": "int"}
+                if n.attr in tbl:
+                    return "(%s).%s" % (base, n.attr), tbl[n.attr]
+                if n.attr in ("request_type", "response_type"):
+                    return ("(%s).%s" % (base, n.attr), "sec") if bt == "comp" else (base, "sec")
+            if bt.startswith("ver:") and n.attr in ("major", "minor"):
+                return "(%s).%s" % (base, n.attr), "int"
             if bt == "bls" and n.attr == "max":
                 return "(Bls.Op.max %s)" % base, "int"
             if bt == "bls" and n.attr == "min":
@@ -236,6 +286,15 @@ class Tr:
                     parts.append("(" + " || ".join("(%s == %s)" % (left, x) for x in elems) + ")")
                     continue
                 r, tr = self.e(c)
+                if isinstance(op, (ast.Is, ast.IsNot)) and tl == tr and tl in ("comp", "sec"):
+                    # object identity of two records is not modelled: the callers pass distinct objects
+                    parts.append("true" if isinstance(op, ast.IsNot) else "false")
+                    left, tl = r, tr
+                    continue
+                if tl == tr and tl in ("str", "bool", "optint") and isinstance(op, (ast.Eq, ast.NotEq)):
+                    parts.append("(%s %s %s)" % (left, "==" if isinstance(op, ast.Eq) else "!=", r))
+                    left, tl = r, tr
+                    continue
                 if tl != "int" or tr != "int":
                     raise Untranslatable("comparison of %s and %s" % (tl, tr))
                 sym = {ast.Eq: "==", ast.NotEq: "!=", ast.LtE: "≤", ast.Lt: "<", ast.GtE: "≥", ast.Gt: ">"}.get(type(op))
@@ -284,7 +343,7 @@ class Tr:
             if len(ts) != 1:
                 raise Untranslatable("heterogeneous list")
             t = ts.pop()
-            lt = {"int": "intlist", "ty": "tylist", "bls": "blslist"}.get(t)
+            lt = {"int": "intlist", "ty": "tylist", "bls": "blslist", "str": "strlist"}.get(t)
             if lt is None:
                 raise Untranslatable("list of %s" % t)
             return "[" + ", ".join(v for v, _ in elems) + "]", lt
@@ -384,6 +443,10 @@ class Tr:
             if f.id == "isinstance" and len(n.args) == 2:
                 a = self.e(n.args[0])
                 want = ast.unparse(n.args[1])
+                if a[1] in ("comp", "sec") and want.endswith("ServiceType"):
+                    return ("(%s).is_service" % a[0] if a[1] == "comp" else "false"), "bool"
+                if a[1] in ("comp", "sec") and want.endswith("DelimitedType"):
+                    return "(%s).is_delimited" % a[0], "bool"
                 ok = {"int": "int", "BitLengthSet": "bls", "_bit_length_set.BitLengthSet": "bls"}.get(want)
                 if ok is not None and a[1] == ok:
                     return "true", "bool"
@@ -472,6 +535,9 @@ class Tr:
             elif isinstance(s, ast.Raise) and s.exc is not None:
                 cls = s.exc.func if isinstance(s.exc, ast.Call) else s.exc
                 out.append('%sthrow (.other "%s")' % (ind, ast.unparse(cls)))
+            elif isinstance(s, ast.Expr) and isinstance(s.value, ast.Call) and ast.unparse(s.value.func) in self.calls:
+                self.e(s.value)
+                self.flush(out, ind)
             elif isinstance(s, ast.Expr) and isinstance(s.value, ast.Yield) and gen:
                 y = s.value.value
                 if isinstance(y, ast.Tuple) and len(y.elts) == 2:
@@ -482,16 +548,22 @@ class Tr:
                     raise Untranslatable("yield shape")
             elif isinstance(s, ast.For) and isinstance(s.target, ast.Name) and not s.orelse:
                 it, tit = self.e(s.iter)
-                et = {"tylist": "ty", "blslist": "bls", "intlist": "int"}.get(tit)
+                et = {"tylist": "ty", "blslist": "bls", "intlist": "int", "complist": "comp"}.get(tit)
                 if et is None:
                     raise Untranslatable("for over %s" % tit)
                 self.flush(out, ind)
                 assigned = assigned_in(s.body) | ({"ys"} if gen and contains(s.body, ast.Yield) else set())
                 carried = sorted(v for v in assigned if lname(v) in declared)
-                if not carried:
-                    raise Untranslatable("for loop without loop-carried state")
                 if contains(s.body, (ast.Return, ast.Break, ast.Continue)):
                     raise Untranslatable("return / break / continue inside a for loop")
+                if not carried:  # a loop that only checks (raises or not)
+                    self.types[s.target.id] = et
+                    body0: typing.List[str] = []
+                    self.stmts(s.body, ind + "    ", body0, set(declared), mut | {lname(v) for v in assigned}, gen)
+                    out.append("%sPy.forEach %s () (fun () %s => do" % (ind, it, lname(s.target.id)))
+                    out.extend(body0)
+                    out.append("%s    pure ())" % ind)
+                    continue
                 state = lname(carried[0]) if len(carried) == 1 else "(" + ", ".join(map(lname, carried)) + ")"
                 self.types[s.target.id] = et
                 body: typing.List[str] = []
@@ -561,7 +633,10 @@ def translate_item(item: dict, repo: Path) -> typing.Tuple[typing.List[str], typ
     try:
         src = (repo / item["source"]).read_text()
         tree = ast.parse(src)
-        cls = next((c for c in tree.body if isinstance(c, ast.ClassDef) and c.name == item["cls"]), None)
+        if item["cls"] is None:
+            cls = tree
+        else:
+            cls = next((c for c in tree.body if isinstance(c, ast.ClassDef) and c.name == item["cls"]), None)
         if cls is None:
             raise Untranslatable("class %s not found" % item["cls"])
         fn = next((f for f in cls.body if isinstance(f, ast.FunctionDef) and f.name == item["fn"]), None)
@@ -605,6 +680,8 @@ def translate_item(item: dict, repo: Path) -> typing.Tuple[typing.List[str], typ
             tr.stmts(fn.body, "  ", body, declared, mut, gen)
             if gen:
                 body.append("  return ys")
+            if item["ret"] == "unit":
+                body.append("  pure ()")
             note = "/- %s  %s -/" % (item["name"], span)
         return [note, head] + body + [""], None
     except (Untranslatable, OSError, SyntaxError) as ex:
@@ -636,6 +713,18 @@ def translate_layout(repo: Path) -> typing.Tuple[str, typing.List[str]]:
            "set_option linter.unusedVariables false", ""] + PREAMBLE
     problems = check_constants(repo)
     for item in ITEMS:
+        lines, prob = translate_item(item, repo)
+        out += lines
+        if prob:
+            problems.append(prob)
+    return "\n".join(out) + "\n", problems
+
+
+def translate_namespace(repo: Path) -> typing.Tuple[str, typing.List[str]]:
+    out = ["import PyLib", "/-! GENERATED by tools/py2lean.py (namespace group) from pydsdl/_namespace.py -- do not edit. -/",
+           "set_option linter.unusedVariables false", ""] + NS_PREAMBLE
+    problems: typing.List[str] = []
+    for item in NS_ITEMS:
         lines, prob = translate_item(item, repo)
         out += lines
         if prob:
